@@ -1,6 +1,6 @@
 (* extraction of the C10 models; directives: ExtrOcamlBasic only *)
 From Coq Require Import ExtrOcamlBasic.
-From CssV Require Import Base Regex Tokenizer Quote Gen.Quote Respell.
+From CssV Require Import Base Regex Tokenizer Respell.
 Definition atkw_name (found : str) : str := fst (fst (finish_token (s "ATKEYWORD") found [])).
 Definition strtokval (v : str) : res (option str) := stringtokenvalue (Some (mkTok (s "STRING") v v 1 1)).
 Extraction "respell_model.ml" normalize unicodesub normalize_u urivalue strtokval hstringvalue atkw_name usub_len strip_spec priority_of.
